@@ -3,11 +3,15 @@ use std::mem;
 pub fn allocate<T>(num: usize) -> *mut T {
     let vec = Vec::<T>::with_capacity(num);
     let rptr = vec.as_ptr();
+    #[cfg(multiqueue2_verif)]
+    crate::verif_hooks::rt::alloc_event(true, rptr as usize, num * mem::size_of::<T>());
     mem::forget(vec);
     rptr as *mut T
 }
 
 pub fn deallocate<T>(tofree: *mut T, num: usize) {
+    #[cfg(multiqueue2_verif)]
+    crate::verif_hooks::rt::alloc_event(false, tofree as usize, num * mem::size_of::<T>());
     unsafe {
         Vec::from_raw_parts(tofree, 0, num);
     }
